@@ -9,27 +9,40 @@ import (
 	"os"
 	"os/exec"
 	"path/filepath"
+	"regexp"
+	"sort"
 	"strings"
 	"sync"
 	"time"
 )
 
+var useHybrid = false
+
 type Query struct {
-	Ob      *Obligation
-	Script  string
-	Err     error
-	Values  []string
-	Result  string // unsat | sat | unknown | timeout | error
-	Solver  string
-	Ms      int64
-	Model   map[string]string
-	Output  string
-	SizeB   int
-	CandN   int
+	Ob               *Obligation
+	Script           string
+	Err              error
+	Values           []string
+	Result           string // unsat | sat | unknown | timeout | error
+	Solver           string
+	Ms               int64
+	Model            map[string]string
+	Output           string
+	SizeB            int
+	CandN            int
+	Light            string // script without quantified hypotheses (tried first)
+	Matched          int    // goal conjuncts discharged syntactically against hypotheses
+	full             func() // builds Script lazily when the light script does not suffice
+	QScript          string // solver-quantified variant
+	QErr             string
+	fullK            func(k int) // build the scripts with the k most relevant hypotheses (0 = all)
+	NHyps, NRelevant int
+	HypSrc           []string
+	lazyInst         bool // build only QScript on the first call of full()
 }
 
 func (b *Builder) child() *Builder {
-	return &Builder{sortSeen: map[string]bool{}, funSeen: map[string]bool{}, consts: map[string]Sort{}, strLits: b.strLits}
+	return &Builder{sortSeen: map[string]bool{}, funSeen: map[string]bool{}, consts: map[string]Sort{}, strLits: b.strLits, prefix: "o"}
 }
 
 // translateObligation instantiates the quantified hypotheses in scope and the goal.
@@ -47,59 +60,228 @@ func (x *Exec) translateObligation(ob *Obligation) (q *Query) {
 			}
 		}
 	}()
-	cands := x.cands.cloneUpTo(ob.mark)
-	var lines []string
-	var goal Term
 	hyps := append([]qhyp{}, ob.extraHyp...)
 	for _, h := range x.qhyps {
-		if h.mark <= ob.mark {
+		if h.mark <= ob.mark && (ob.hyps == nil || ob.hyps[h.id]) {
 			hyps = append(hyps, h)
 		}
 	}
-	rounds := 3
-	if len(hyps) == 0 && (ob.expr == nil || !containsQuant(ob.expr, x.db)) {
-		rounds = 1
+	// syntactic discharge: a quantified conjunct of the goal that literally is a conjunct of a
+	// hypothesis (same formula over the same state terms) is replaced by that hypothesis' guard
+	var goalConjs []conj
+	replaced := map[int]Term{}
+	if ob.expr != nil && containsQuant(ob.expr, x.db) {
+		goalConjs = conjuncts(ob.expr, ob.env, 0)
+		hypCanon := map[string]Term{}
+		for _, h := range hyps {
+			for _, c := range conjuncts(h.expr, h.env, 0) {
+				if !containsQuant(c.expr, x.db) {
+					continue
+				}
+				if s, ok := canon(c); ok {
+					if _, dup := hypCanon[s]; !dup {
+						hypCanon[s] = h.guard
+					}
+				}
+			}
+		}
+		for i, c := range goalConjs {
+			if !containsQuant(c.expr, x.db) {
+				continue
+			}
+			if s, ok := canon(c); ok {
+				if g, hit := hypCanon[s]; hit {
+					replaced[i] = g
+				}
+			}
+		}
 	}
-	for round := 0; round < rounds; round++ {
-		sub := x.b.child()
+	q.Matched = len(replaced)
+	allMatchedEarly := len(goalConjs) > 0
+	for i, c := range goalConjs {
+		if _, hit := replaced[i]; !hit && containsQuant(c.expr, x.db) {
+			allMatchedEarly = false
+		}
+	}
+	if !ob.mustSat && ob.expr == nil && len(hyps) > 0 {
+		q.Light = x.b.Script(ob.mark, nil, Implies(ob.guard, *ob.ground), nil)
+	}
+	if !ob.mustSat && ob.expr != nil && allMatchedEarly && len(hyps) > 0 {
+		// every quantified conjunct was discharged syntactically: the rest is usually ground
+		var parts []Term
 		var facts []Term
-		mkEnv := func(base *Env, assume bool, tag string) *Env {
-			inst := 0
-			n := *base
+		sub := x.b.child()
+		for i, c := range goalConjs {
+			if g, hit := replaced[i]; hit {
+				parts = append(parts, g)
+				continue
+			}
+			n := *c.env
 			n.sink = sub
-			n.cands = cands
-			n.assume = assume
+			n.cands = nil
 			n.facts = &facts
-			n.useCand = round > 0
-			n.skTag = tag
-			n.inst = &inst
-			return &n
+			parts = append(parts, n.Bool(c.expr))
 		}
-		var hs []Term
-		for k, h := range hyps {
-			t := mkEnv(h.env, true, fmt.Sprintf("h%d", k)).Bool(h.expr)
-			hs = append(hs, Implies(h.guard, t))
-		}
-		if ob.expr != nil {
-			g := mkEnv(ob.env, false, "g").Bool(ob.expr)
-			goal = Implies(ob.guard, g)
-		} else {
-			goal = Implies(ob.guard, *ob.ground)
-		}
-		lines = append([]string{}, sub.lines...)
-		seenFact := map[string]bool{}
+		var ls []string
+		ls = append(ls, sub.lines...)
 		for _, f := range facts {
-			if !seenFact[f.S] {
-				seenFact[f.S] = true
-				lines = append(lines, "(assert "+f.S+")")
+			ls = append(ls, "(assert "+f.S+")")
+		}
+		q.Light = x.b.Script(ob.mark, ls, Implies(ob.guard, And(parts...)), nil)
+	}
+	// premise selection: rank the hypotheses by the heap/function symbols they share with what is
+	// left of the goal; the solver first gets the most relevant ones only (dropping hypotheses is
+	// always sound), then more, then all
+	goalSyms := map[string]bool{}
+	if ob.expr != nil {
+		for i, c := range goalConjs {
+			if _, hit := replaced[i]; hit {
+				continue
+			}
+			if s, ok := canon(c); ok {
+				x.symbolsOf(s, goalSyms, 2)
 			}
 		}
-		for _, h := range hs {
-			if h.S != "true" {
-				lines = append(lines, "(assert "+h.S+")")
+		if len(goalConjs) == 0 {
+			if s, ok := canon(conj{ob.expr, ob.env}); ok {
+				x.symbolsOf(s, goalSyms, 2)
 			}
+		}
+	} else {
+		x.symbolsOf(ob.ground.S, goalSyms, 3)
+	}
+	hsyms := make([]map[string]bool, len(hyps))
+	df := map[string]int{}
+	for k, h := range hyps {
+		hsyms[k] = map[string]bool{}
+		if s, ok := canon(conj{h.expr, h.env}); ok {
+			x.symbolsOf(s, hsyms[k], 1)
+		}
+		for sym := range hsyms[k] {
+			df[sym]++
 		}
 	}
+	type scored struct {
+		k     int
+		score float64
+	}
+	var sc []scored
+	for k := range hyps {
+		v := 0.0
+		shared := 0
+		for sym := range hsyms[k] {
+			if goalSyms[sym] {
+				v += 1.0 / float64(df[sym])
+				shared++
+			}
+		}
+		if len(hsyms[k]) > 0 {
+			v *= float64(shared) / float64(len(hsyms[k])) // prefer hypotheses that talk about little else
+		}
+		sc = append(sc, scored{k, v})
+	}
+	sort.SliceStable(sc, func(i, j int) bool { return sc[i].score > sc[j].score })
+	ranked := make([]qhyp, 0, len(hyps))
+	nRelevant := 0
+	for _, e := range sc {
+		ranked = append(ranked, hyps[e.k])
+		if e.score > 0 {
+			nRelevant++
+		}
+	}
+	q.NHyps = len(hyps)
+	q.NRelevant = nRelevant
+	for _, e := range sc {
+		q.HypSrc = append(q.HypSrc, fmt.Sprintf("%.3f %s :: %s", e.score, hyps[e.k].src, hyps[e.k].expr))
+	}
+	q.fullK = func(k int) {
+		sel := ranked
+		if k > 0 && k < len(ranked) {
+			sel = ranked[:k]
+		}
+		q.Script, q.QScript, q.Err = "", "", nil
+		x.fullScript(ob, q, sel, goalConjs, replaced)
+	}
+	q.full = func() { q.fullK(0) }
+	q.lazyInst = len(hyps) > 0
+	return q
+}
+
+var symRe = regexp.MustCompile(`\b(?:H|M|Cell|G|Box)_[A-Za-z0-9_]+|\bu_[A-Za-z0-9_]+|\bsz\b|\bstr_(?:prefix|concat|drop|lt)\b`)
+var nameRe = regexp.MustCompile(`[A-Za-z_][A-Za-z0-9_]*![0-9]+`)
+
+// symbolsOf collects the heap / uninterpreted-function symbols of a term, looking through define-fun
+// names of the main builder up to the given depth.
+func (x *Exec) symbolsOf(s string, out map[string]bool, depth int) {
+	for _, m := range symRe.FindAllString(s, -1) {
+		if i := strings.Index(m, "!"); i >= 0 {
+			m = m[:i]
+		}
+		m = strings.TrimSuffix(m, "_at0")
+		if strings.HasPrefix(m, "hv_") {
+			m = m[3:]
+		}
+		out[m] = true
+	}
+	if depth <= 0 {
+		return
+	}
+	seen := map[string]bool{}
+	for _, n := range nameRe.FindAllString(s, -1) {
+		if seen[n] {
+			continue
+		}
+		seen[n] = true
+		base := n[:strings.Index(n, "!")]
+		for _, pre := range []string{"hv_", "m_"} {
+			base = strings.TrimPrefix(base, pre)
+		}
+		if symRe.MatchString(base) {
+			out[base] = true
+		}
+		if d, ok := x.b.defs[n]; ok && len(d) < 4000 {
+			x.symbolsOf(d, out, depth-1)
+		}
+	}
+}
+
+// fullScript instantiates the quantified hypotheses in scope (three rounds of candidate collection).
+func (x *Exec) fullScript(ob *Obligation, q *Query, hyps []qhyp, goalConjs []conj, replaced map[int]Term) {
+	defer func() {
+		if r := recover(); r != nil {
+			switch e := r.(type) {
+			case specErr:
+				q.Err = fmt.Errorf("contract error in %s (%s): %s", ob.Name, ob.Src, e.msg)
+			case unsupportedErr:
+				q.Err = fmt.Errorf("unsupported in %s: %s", ob.Name, e.msg)
+			default:
+				panic(r)
+			}
+		}
+	}()
+	// hybrid script first: flat universal hypotheses stay quantified (E-matching in the solver),
+	// alternating ones are instantiated by the generator. The fully generator-instantiated script
+	// (quantifier-free, yields models) is built when the hybrid one does not prove the goal.
+	if !ob.mustSat && q.lazyInst && useHybrid {
+		func() {
+			defer func() {
+				if r := recover(); r != nil {
+					if se, ok := r.(specErr); ok {
+						q.QScript = ""
+						q.QErr = se.msg
+						return
+					}
+					panic(r)
+				}
+			}()
+			lines, goal, _ := x.instantiate(ob, hyps, goalConjs, replaced, true)
+			q.QScript = x.b.Script(ob.mark, lines, goal, nil)
+		}()
+		if q.QScript != "" {
+			return
+		}
+	}
+	lines, goal, cands := x.instantiate(ob, hyps, goalConjs, replaced, false)
 	q.CandN = cands.size()
 	vals := x.modelTerms()
 	for _, l := range lines {
@@ -119,7 +301,6 @@ func (x *Exec) translateObligation(ob *Obligation) (q *Query) {
 	}
 	q.Values = vals
 	q.SizeB = len(q.Script)
-	return q
 }
 
 // modelTerms: the ground terms whose values describe a counterexample input.
@@ -164,7 +345,7 @@ func runSolvers(dir, name, script string, timeoutS int, all bool, seed int) (res
 	_ = os.WriteFile(path, []byte(script), 0o644)
 	type ans struct {
 		solver, res, out string
-		ms           int64
+		ms               int64
 	}
 	ctx, cancel := context.WithCancel(context.Background())
 	defer cancel()
@@ -264,4 +445,69 @@ func parseValues(out string) map[string]string {
 		}
 	}
 	return m
+}
+
+// instantiate translates the hypotheses in scope and the goal in three rounds of candidate collection.
+// hybrid: flat quantifiers are left to the solver.
+func (x *Exec) instantiate(ob *Obligation, hyps []qhyp, goalConjs []conj, replaced map[int]Term, hybrid bool) (lines []string, goal Term, cands *Cands) {
+	cands = x.cands.cloneUpTo(ob.mark)
+	rounds := 3
+	if len(hyps) == 0 && (ob.expr == nil || !containsQuant(ob.expr, x.db)) {
+		rounds = 1
+	}
+	sub := x.b.child()
+	for round := 0; round < rounds; round++ {
+		var facts []Term
+		mkEnv := func(base *Env, assume bool, tag string) *Env {
+			inst := 0
+			n := *base
+			n.sink = sub
+			n.cands = cands
+			n.assume = assume
+			n.facts = &facts
+			n.useCand = round > 0
+			n.skTag = tag
+			n.inst = &inst
+			if hybrid {
+				n.canonQ = true
+				n.hybrid = true
+			}
+			return &n
+		}
+		var hs []Term
+		for k, h := range hyps {
+			t := mkEnv(h.env, true, fmt.Sprintf("h%d", k)).Bool(h.expr)
+			hs = append(hs, Implies(h.guard, t))
+		}
+		if ob.expr != nil && len(replaced) > 0 {
+			var parts []Term
+			for i, c := range goalConjs {
+				if g, hit := replaced[i]; hit {
+					parts = append(parts, g)
+					continue
+				}
+				parts = append(parts, mkEnv(c.env, false, fmt.Sprintf("g%d", i)).Bool(c.expr))
+			}
+			goal = Implies(ob.guard, And(parts...))
+		} else if ob.expr != nil {
+			g := mkEnv(ob.env, false, "g").Bool(ob.expr)
+			goal = Implies(ob.guard, g)
+		} else {
+			goal = Implies(ob.guard, *ob.ground)
+		}
+		lines = append([]string{}, sub.lines...)
+		seenFact := map[string]bool{}
+		for _, f := range facts {
+			if !seenFact[f.S] {
+				seenFact[f.S] = true
+				lines = append(lines, "(assert "+f.S+")")
+			}
+		}
+		for _, h := range hs {
+			if h.S != "true" {
+				lines = append(lines, "(assert "+h.S+")")
+			}
+		}
+	}
+	return lines, goal, cands
 }
